@@ -11,7 +11,7 @@ Section Sort.
   Fixpoint insert_by (x : A) (l : list A) : list A :=
     match l with
     | [] => [x]
-    | y :: l' => if lt x y then x :: l else y :: insert_by x l'
+    | y :: l' => if negb (lt y x) then x :: l else y :: insert_by x l'   (* x <= y: x (earlier in the input) stays first *)
     end.
   (* inserting from the right keeps equal keys in input order *)
   Definition sort_by (l : list A) : list A := fold_right insert_by [] l.
